@@ -6,36 +6,58 @@ import TshVerif.Model.Parser
 import Lean
 namespace Tsh.Parser
 
-def Post {α : Type} (m : PM α) (Q : α → Prop) : Prop := ∀ s a s', m s = .ok a s' → Q a
+/-- every successful run of `m` returns a value with `Q`, and no run of `m` ends in the `panic` outcome (the places where
+    the Go code would index out of range or dereference nil) -/
+structure Post {α : Type} (m : PM α) (Q : α → Prop) : Prop where
+  ok : ∀ s a s', m s = .ok a s' → Q a
+  np : ∀ s, m s ≠ .panic
 
 namespace Post
 variable {α β : Type} {Q : α → Prop}
 
-theorem pure' {a : α} (h : Q a) : Post (pure a : PM α) Q := by
-  intro s b s' hb
-  simp only [pure, PRes.ok.injEq] at hb
-  exact hb.1 ▸ h
+theorem pure' {a : α} (h : Q a) : Post (pure a : PM α) Q :=
+  ⟨by intro s b s' hb; simp only [pure, PRes.ok.injEq] at hb; exact hb.1 ▸ h, by intro s; simp [pure]⟩
 
-theorem err : Post (Parser.err : PM α) Q := by intro s a s' h; simp [Parser.err] at h
-theorem pan : Post (Parser.pan : PM α) Q := by intro s a s' h; simp [Parser.pan] at h
-theorem div : Post (Parser.div : PM α) Q := by intro s a s' h; simp [Parser.div] at h
+theorem err : Post (Parser.err : PM α) Q := ⟨by intro s a s' h; simp [Parser.err] at h, by intro s; simp [Parser.err]⟩
+theorem div : Post (Parser.div : PM α) Q := ⟨by intro s a s' h; simp [Parser.div] at h, by intro s; simp [Parser.div]⟩
+
+/-- a branch that cannot be reached -/
+theorem unreachable {m : PM α} (h : False) : Post m Q := h.elim
 
 theorem bind' {m : PM α} {f : α → PM β} {P : α → Prop} {R : β → Prop}
     (hm : Post m P) (hf : ∀ a, P a → Post (f a) R) : Post (m >>= f) R := by
-  intro s b s'' h
-  simp only [bind] at h
-  cases hx : m s with
-  | ok a s' => rw [hx] at h; exact hf a (hm s a s' hx) s' b s'' h
-  | error => simp [hx] at h
-  | panic => simp [hx] at h
-  | diverge => simp [hx] at h
+  constructor
+  · intro s b s'' h
+    simp only [bind] at h
+    cases hx : m s with
+    | ok a s' => rw [hx] at h; exact (hf a (hm.ok s a s' hx)).ok s' b s'' h
+    | error => simp [hx] at h
+    | panic => simp [hx] at h
+    | diverge => simp [hx] at h
+  · intro s h
+    simp only [bind] at h
+    cases hx : m s with
+    | ok a s' => rw [hx] at h; exact (hf a (hm.ok s a s' hx)).np s' h
+    | error => simp [hx] at h
+    | panic => exact hm.np s hx
+    | diverge => simp [hx] at h
 
 theorem errBind {f : α → PM β} {R : β → Prop} : Post ((Parser.err : PM α) >>= f) R :=
   bind' (P := fun _ => False) err (fun _ h => h.elim)
 
-/-- bind after a computation nothing is known (or needed) about -/
-theorem bindAny {m : PM α} {f : α → PM β} {R : β → Prop} (hf : ∀ a, Post (f a) R) : Post (m >>= f) R :=
-  bind' (P := fun _ => True) (fun _ _ _ _ => trivial) (fun a _ => hf a)
+/-- a computation that always succeeds (the primitives of the parser: token access, state access) -/
+theorem prim {m : PM α} (h : ∀ s, ∃ a s', m s = .ok a s') : Post m (fun _ => True) :=
+  ⟨fun _ _ _ _ => trivial, by intro s hp; obtain ⟨a, s', e⟩ := h s; rw [e] at hp; simp at hp⟩
+
+theorem peekAt (k : Nat) : Post (Parser.peekAt k) (fun _ => True) := prim fun _ => ⟨_, _, rfl⟩
+theorem peek : Post Parser.peek (fun _ => True) := prim fun _ => ⟨_, _, rfl⟩
+theorem eat : Post Parser.eat (fun _ => True) := prim fun _ => ⟨_, _, rfl⟩
+theorem getS : Post Parser.getS (fun _ => True) := prim fun _ => ⟨_, _, rfl⟩
+theorem setS (s : PSt) : Post (Parser.setS s) (fun _ => True) := prim fun _ => ⟨_, _, rfl⟩
+theorem findAllowed (a : Nat) (l : List Nat) : Post (Parser.findAllowed a l) (fun _ => True) := prim fun _ => ⟨_, _, rfl⟩
+theorem findBefore (a : Nat) (l : List Nat) : Post (Parser.findBefore a l) (fun _ => True) := prim fun _ => ⟨_, _, rfl⟩
+theorem isShortVarInit : Post Parser.isShortVarInit (fun _ => True) := prim fun _ => ⟨_, _, rfl⟩
+theorem recordCall (n : String) : Post (Parser.recordCall n) (fun _ => True) := prim fun _ => ⟨_, _, rfl⟩
 
 theorem ite' {c : Prop} [Decidable c] {t e : PM α} (ht : c → Post t Q) (he : ¬c → Post e Q) :
     Post (if c then t else e) Q := by
@@ -44,16 +66,38 @@ theorem ite' {c : Prop} [Decidable c] {t e : PM α} (ht : c → Post t Q) (he : 
   · simp only [h, if_false]; exact he h
 
 theorem mono {m : PM α} {P : α → Prop} (h : Post m P) (hpq : ∀ a, P a → Q a) : Post m Q :=
-  fun s a s' hm => hpq a (h s a s' hm)
+  ⟨fun s a s' hm => hpq a (h.ok s a s' hm), h.np⟩
 
 theorem and {m : PM α} {P : α → Prop} (h1 : Post m P) (h2 : Post m Q) : Post m (fun a => P a ∧ Q a) :=
-  fun s a s' hm => ⟨h1 s a s' hm, h2 s a s' hm⟩
+  ⟨fun s a s' hm => ⟨h1.ok s a s' hm, h2.ok s a s' hm⟩, h1.np⟩
 
 theorem ofOpt {o : Option α} (h : ∀ a, o = some a → Q a) : Post (Parser.ofOpt o) Q := by
   cases o with
   | none => exact err
   | some a => exact pure' (h a rfl)
 
+theorem ofOptAny {o : Option α} : Post (Parser.ofOpt o) (fun _ => True) := ofOpt fun _ _ => trivial
+
+end Post
+
+/-- `Post m (fun _ => True)` for computations built from the primitives with bind / if / pure / err: they cannot panic -/
+syntax "pm_np" : tactic
+macro_rules
+  | `(tactic| pm_np) => `(tactic| first
+      | exact Post.peek | exact Post.eat | exact Post.peekAt _ | exact Post.getS | exact Post.setS _
+      | exact Post.findAllowed _ _ | exact Post.findBefore _ _ | exact Post.isShortVarInit | exact Post.recordCall _
+      | exact Post.ofOptAny | exact Post.err | exact Post.div | exact Post.errBind
+      | exact Post.pure' trivial
+      | assumption
+      | (apply Post.ite' <;> intro _ <;> pm_np)
+      | (refine Post.bind' (P := fun _ => True) (by pm_np) (fun _ _ => by pm_np)))
+
+namespace Post
+variable {α β : Type}
+/-- bind after a computation of which only "does not panic" is needed -/
+theorem bindAny {m : PM α} {f : α → PM β} {R : β → Prop} (hf : ∀ a, Post (f a) R)
+    (hm : Post m (fun _ => True) := by pm_np) : Post (m >>= f) R :=
+  bind' hm (fun a _ => hf a)
 end Post
 
 open Lean Meta Elab Tactic in
